@@ -231,14 +231,17 @@ def posEntries : Nat → Bytes → Except PErr (List PosEntry)
     | .error e => .error e
     | .ok (e, r) => do let tl ← posEntries fuel r; pure (e :: tl)
 
-abbrev Pos := Option (Int × Int × Int × Int)
+abbrev Pos := Option (Int × Int × Option Int × Option Int)
+
+/-- `x if x >= 0 else None` -/
+def colOpt (c : Int) : Option Int := if c ≥ 0 then some c else none
 
 def expandPositions : Int → List PosEntry → List Pos
   | _, [] => []
   | line, e :: rest =>
     let line' := line + e.lineDelta
     List.replicate (e.codeDelta / 2)
-      (if e.noLine then none else some (line', line' + e.numLines, e.column, e.endColumn))
+      (if e.noLine then none else some (line', line' + e.numLines, colOpt e.column, colOpt e.endColumn))
     ++ expandPositions line' rest
 
 /-- `parse_positions(linetable, first_lineno)`: one 4-tuple per code unit -/
